@@ -211,20 +211,27 @@ def tr1(ctx, R):
         R.check(from_reader, "%s::buffer" % f.qual, f.where(c), "columns are taken from the rows read for the current raw buffer",
                 "the bytes decoded do not come from read_interleaved_segment_bytes of the current buffer (`%s`)" % show(alpha(buf))[:100])
     # (3) scalers decoded from a buffer are those whose raw_buffer_index is that buffer's position
-    sy = Sym(prog, main, main.cls, stack=keep)
-    decode_calls = [c for c in walk_body(main.node) if isinstance(c, ast.Call) and (
-        (isinstance(c.func, ast.Attribute) and c.func.attr == "postprocess_data") or any(c2 is c for f2, c2 in ()) or
-        any(f.qual != main.qual and calls_to(prog, main, f.qual, main.cls) and c in calls_to(prog, main, f.qual, main.cls) for f, _c in sites))]
+    # the function that holds the loop over the buffers: _read_data_chunk itself or the helper it delegates the whole chunk to
+    holder = main
+    for f, _c in sites:
+        if any(isinstance(x, ast.Call) and (call_name(x) or "").endswith("get_buffer_dimensions") for x in walk_body(f.node)):
+            holder = f
+    main_ = holder
+    sy = Sym(prog, main_, main_.cls, stack=keep)
+    decode_calls = [c for c in walk_body(main_.node) if isinstance(c, ast.Call) and (
+        (isinstance(c.func, ast.Attribute) and c.func.attr == "postprocess_data") or
+        any(f.qual != main_.qual and calls_to(prog, main_, f.qual, main_.cls) and c in calls_to(prog, main_, f.qual, main_.cls) for f, _c in sites))]
     key = "daqmx.DaqmxDataReader._read_data_chunk::scalers of this buffer"
     if not decode_calls:
-        R.undecided(key, main.where(), "decode site not found in _read_data_chunk")
+        R.undecided(key, main_.where(), "decode site not found in %s" % main_.qual)
+    main = main_
     for c in decode_calls[:1]:
         env, guards = sy.env_at(c)
         loops = env.get("<iter>", ())
         conds = list(guards)
         for it, bv in loops:
-            if it[0] == "comp":
-                conds += list(it[4])
+            # filters of the comprehensions the loop draws from (directly, nested, or through an inlined generator)
+            conds += [x for x, _b in find(it, ("cmp", "==", W(), W()))]
         eqs = [x for g in conds for x, _b in find(g, ("cmp", "==", W(), W())) if find(x, ("attr", W(), "raw_buffer_index"))]
         outer = [(it, bv) for it, bv in loops if find(it, ("call", "daqmx.get_buffer_dimensions", W(), W()))]
         if not eqs or not outer:
@@ -311,6 +318,7 @@ def sb1(ctx, R):
     budget that complete buffers / channels decrement; the statement that gives the first incomplete one `budget // width` rows must
     not be followed by another iteration of that loop."""
     from .sem import module_region
+    from .absval import assume_from
     prog = ctx.prog
     for q in ("daqmx.get_daqmx_final_chunk_lengths", "tdms_segment.TdmsSegment._compute_final_chunk_lengths"):
         top = prog.func(q)
@@ -319,9 +327,19 @@ def sb1(ctx, R):
             cfg = ctx.cfg(fi)
             for loop in [n for n in walk_body(fi.node) if isinstance(n, (ast.For, ast.While))]:
                 budgets = {n.target.id for n in ast.walk(loop) if isinstance(n, ast.AugAssign) and isinstance(n.op, ast.Sub) and isinstance(n.target, ast.Name)}
-                partial = [n for n in ast.walk(loop) if isinstance(n, ast.Assign) and isinstance(n.targets[0], ast.Subscript)
-                           and isinstance(n.value, ast.BinOp) and isinstance(n.value.op, ast.FloorDiv)
-                           and isinstance(n.value.left, ast.Name) and n.value.left.id in budgets]
+                def emitted(n):
+                    """the value a statement hands out as a length: X[i] = v / yield v / L.append(v)"""
+                    if isinstance(n, ast.Assign) and isinstance(n.targets[0], ast.Subscript):
+                        return n.value
+                    if isinstance(n, ast.Expr) and isinstance(n.value, ast.Yield) and n.value.value is not None:
+                        return n.value.value
+                    if isinstance(n, ast.Expr) and isinstance(n.value, ast.Call) and isinstance(n.value.func, ast.Attribute) and n.value.func.attr == "append" \
+                            and len(n.value.args) == 1:
+                        return n.value.args[0]
+                    return None
+                is_partial = lambda v: isinstance(v, ast.BinOp) and isinstance(v.op, ast.FloorDiv) and isinstance(v.left, ast.Name) and v.left.id in budgets
+                emits = [n for n in ast.walk(loop) if isinstance(n, ast.stmt) and emitted(n) is not None]
+                partial = [n for n in emits if is_partial(emitted(n))]
                 if not partial:
                     continue
                 found = True
@@ -330,7 +348,28 @@ def sb1(ctx, R):
                     pn = cfg.where(lambda n: n.ast is p)
                     r = cfg.reach([m for x in pn for m, k in x.succ if k not in ("exc", "uncaught")], follow_exc=False)
                     back = [h for h in heads if h in r]
-                    R.check(not back, "%s::stop after the first incomplete one" % q, fi.where(p), "the loop ends at the first incomplete buffer/channel (`%s`)" % unparse(p)[:50],
+                    zero_after = False
+                    if back:
+                        # the loop goes on, which is fine when a flag set with the partial length makes every later round hand out 0
+                        before_head = cfg.reach([m for x in pn for m, k in x.succ if k not in ("exc", "uncaught")], avoid=lambda n: n in heads, follow_exc=False)
+                        facts = {}
+                        for n in before_head:
+                            a = getattr(n, "ast", None)
+                            if n.kind == "stmt" and isinstance(a, ast.Assign) and len(a.targets) == 1 and isinstance(a.targets[0], ast.Name) \
+                                    and isinstance(a.value, ast.Constant) and isinstance(a.value.value, bool):
+                                facts[a.targets[0].id] = a.value.value
+                        if facts:
+                            starts = [m for h in heads for m, k in h.succ if k == "loop"]
+                            r2 = cfg.reach(starts, avoid=lambda n: n in heads, assume=assume_from(facts), follow_exc=False) | set(starts)
+                            nonzero = [n for n in r2 if n.kind == "stmt" and emitted(n.ast) is not None
+                                       and not (isinstance(emitted(n.ast), ast.Constant) and emitted(n.ast).value == 0)]
+                            reset = [n for n in r2 if n.kind == "stmt" and isinstance(n.ast, ast.Assign) and any(
+                                isinstance(t, ast.Name) and t.id in facts for t in n.ast.targets) and not (
+                                isinstance(n.ast.value, ast.Constant) and n.ast.value.value == facts.get(n.ast.targets[0].id))]
+                            zero_after = not nonzero and not reset
+                    R.check(not back or zero_after, "%s::stop after the first incomplete one" % q, fi.where(p),
+                            "the loop ends at the first incomplete buffer/channel (`%s`)" % unparse(p)[:50] if not back else
+                            "after the first incomplete buffer/channel every later one is given 0 rows",
                             "after the first incomplete buffer/channel the loop goes on: leftover bytes of a half-written row are counted as complete rows of later, "
                             "narrower buffers, which then gain values that were never written")
                 R.ok(q + "::complete buffers consume their bytes", fi.where(loop), "the byte budget `%s` decreases by each complete buffer" % ", ".join(sorted(budgets)))
